@@ -90,12 +90,14 @@ Section CacheProofs.
   Variable K : Type.
   Variable K_eqb : K -> K -> bool.
   Variable H : list N -> K.
+  Variable enc : ident -> list N.
   Hypothesis K_eqb_spec : forall a b, K_eqb a b = true <-> a = b.
+  Hypothesis enc_inj : forall a b, enc a = enc b -> a = b.
 
-  Notation key := (key K H).
+  Notation key := (key K H enc).
   Notation put := (put K K_eqb).
   Notation remove_key := (remove_key K K_eqb).
-  Notation write := (write K K_eqb H).
+  Notation write := (write K K_eqb H enc).
   Notation load := (load K).
   Notation read := (read K).
 
@@ -167,17 +169,31 @@ Section CacheProofs.
         * right. split; [tauto|]. right. split; [|exact I]. intros E. apply Nk. left. symmetry. exact E.
   Qed.
 
-  Lemma listed_spec : forall ts r, listed ts r = true <-> exists t, In t ts /\ ident_of t = ident_of (p_m r).
+  (* without any premise: whatever sits under a listed key after the puts is the pickle of a listed transfer *)
+  Lemma in_puts_fwd : forall ts d k r, In (k, r) (puts ts d) ->
+    (exists t, In t ts /\ k = key t /\ r = getstate t) \/ (~ In k (map key ts) /\ In (k, r) d).
   Proof.
-    intros ts r. unfold listed. rewrite existsb_exists. split; intros [t [I E]]; exists t; split; try exact I;
-      apply ident_eqb_eq; exact E.
+    induction ts as [|t ts IH]; intros d k r I; cbn [puts fold_left] in I.
+    - right. split; [intros []|exact I].
+    - fold (puts ts (put (key t) (getstate t) d)) in I. apply IH in I. destruct I as [[t' [It [E1 E2]]]|[Nk I]].
+      + left. exists t'. split; [right; exact It|split; assumption].
+      + apply in_put in I. destruct I as [[E1 E2]|[Nk2 I]].
+        * left. exists t. split; [left; reflexivity|split; assumption].
+        * right. split; [|exact I]. cbn. intros [E|I']; [symmetry in E; contradiction|contradiction].
   Qed.
 
-  Lemma nodup_keys_of_idents : forall ts, NoDup (map ident_of ts) -> key_injective_on K H ts -> NoDup (map key ts).
+  Lemma key_listed_spec : forall ts k, existsb (K_eqb k) (map key ts) = true <-> In k (map key ts).
+  Proof.
+    intros ts k. rewrite existsb_exists. split.
+    - intros [x [I E]]. apply K_eqb_spec in E. subst. exact I.
+    - intros I. exists k. split; [exact I|apply K_eqb_spec; reflexivity].
+  Qed.
+
+  Lemma nodup_keys_of_idents : forall ts, NoDup (map ident_of ts) -> hash_injective_on K H enc ts -> NoDup (map key ts).
   Proof.
     induction ts as [|t ts IH]; intros N KI; cbn; [constructor|]. inv N. constructor.
     - intros I. apply in_map_iff in I. destruct I as [t' [E I]]. apply H2. apply in_map_iff. exists t'. split; [|exact I].
-      symmetry. apply KI; [left; reflexivity|right; exact I|symmetry; exact E].
+      symmetry. apply enc_inj. apply KI; [left; reflexivity|right; exact I|symmetry; exact E].
     - apply IH; [assumption|]. intros a b Ia Ib. apply KI; right; assumption.
   Qed.
 
@@ -188,22 +204,23 @@ Section CacheProofs.
     apply filter_In in I. apply in_map_iff. exists y. tauto.
   Qed.
 
-  (* what is in the database after write: exactly one entry per listed transfer, under its key *)
-  Lemma in_write : forall d ts k r, NoDup (map ident_of ts) -> key_injective_on K H ts -> db_ok K H d ->
+  (* what is in the database after write: exactly one entry per listed transfer, under its key --
+     whatever the database held before, under whatever keys *)
+  Lemma in_write : forall d ts k r, NoDup (map ident_of ts) -> hash_injective_on K H enc ts ->
     (In (k, r) (write d ts) <-> exists t, In t ts /\ k = key t /\ r = getstate t).
   Proof.
-    intros d ts k r N KI OK. unfold C17.Model.write. fold (puts ts d). rewrite filter_In. cbn [snd].
-    rewrite in_puts by (apply nodup_keys_of_idents; assumption). split.
-    - intros [[X|[Nk I]] L]; [exact X|]. exfalso. apply listed_spec in L. destruct L as [t [It E]].
-      apply Nk. apply in_map_iff. exists t. split; [|exact It]. rewrite (OK _ _ I). unfold C17.Model.key. rewrite E. reflexivity.
-    - intros [t [I [E1 E2]]]. split; [left; exists t; auto|]. apply listed_spec. exists t. split; [exact I|]. subst r. reflexivity.
+    intros d ts k r N KI. unfold C17.Model.write. fold (puts ts d). rewrite filter_In. cbn [fst].
+    rewrite key_listed_spec. rewrite in_puts by (apply nodup_keys_of_idents; assumption). split.
+    - intros [[X|[Nk I]] L]; [exact X|contradiction].
+    - intros [t [I [E1 E2]]]. split; [left; exists t; auto|]. subst k. apply in_map. exact I.
   Qed.
 
-  Lemma roundtrip_thm : forall d ts, NoDup (map fst d) -> db_ok K H d ->
-    NoDup (map ident_of ts) -> key_injective_on K H ts ->
-    Permutation (map snd (write d ts)) (map getstate ts) /\ NoDup (map fst (write d ts)) /\ db_ok K H (write d ts).
+  Lemma roundtrip_thm : forall d ts, NoDup (map fst d) ->
+    NoDup (map ident_of ts) -> hash_injective_on K H enc ts ->
+    Permutation (map snd (write d ts)) (map getstate ts) /\ NoDup (map fst (write d ts)) /\
+    (forall k, In k (map fst (write d ts)) <-> In k (map key ts)).
   Proof.
-    intros d ts Nd OK N KI.
+    intros d ts Nd N KI.
     assert (Nw : NoDup (map fst (write d ts))).
     { unfold C17.Model.write. apply nodup_map_fst_filter. apply nodup_puts. exact Nd. }
     split; [|split; [exact Nw|]].
@@ -215,26 +232,31 @@ Section CacheProofs.
           + intros [t [I [E1 E2]]]. exists t. subst. auto.
           + intros [t [E I]]. inv E. exists t. auto. }
       apply (Permutation_map snd) in P. rewrite map_map in P. cbn in P. exact P.
-    - intros k r I. apply in_write in I; try assumption. destruct I as [t [_ [E1 E2]]]. subst. reflexivity.
+    - intros k. split.
+      + intros I. apply in_map_iff in I. destruct I as [[k' r] [E I]]. cbn in E. subst k'.
+        apply in_write in I; try assumption. destruct I as [t [It [E _]]]. subst k. apply in_map. exact It.
+      + intros I. apply in_map_iff in I. destruct I as [t [E It]]. apply in_map_iff. exists (k, getstate t). split; [reflexivity|].
+        apply in_write; try assumption. exists t. auto.
   Qed.
 
   (* what a new client unpickles: the listed transfers, each once, with fresh runtime fields *)
-  Lemma roundtrip_read_thm : forall d ts, NoDup (map fst d) -> db_ok K H d ->
-    NoDup (map ident_of ts) -> key_injective_on K H ts -> (forall t, In t ts -> has_class (m_state t) = true) ->
+  Lemma roundtrip_read_thm : forall d ts, NoDup (map fst d) ->
+    NoDup (map ident_of ts) -> hash_injective_on K H enc ts -> (forall t, In t ts -> has_class (m_state t) = true) ->
     Permutation (read (write d ts)) (map (fun t => Some (norm t)) ts).
   Proof.
-    intros d ts Nd OK N KI HC. destruct (roundtrip_thm d ts Nd OK N KI) as [P _].
+    intros d ts Nd N KI HC. destruct (roundtrip_thm d ts Nd N KI) as [P _].
     unfold C17.Model.read. rewrite <- (map_map snd setstate). apply (Permutation_map setstate) in P.
     eapply Permutation_trans; [exact P|]. rewrite map_map.
     erewrite map_ext_in; [apply Permutation_refl|]. intros t I. cbv beta. apply setstate_getstate. apply HC. exact I.
   Qed.
 
-  (* removed transfers are gone: whatever was in the database, only listed identities remain *)
+  (* removed transfers are gone: whatever was in the database, only pickles of listed transfers remain *)
   Lemma removed_gone_thm : forall d ts r, In r (map snd (write d ts)) ->
-    exists t, In t ts /\ ident_of t = ident_of (p_m r).
+    exists t, In t ts /\ r = getstate t.
   Proof.
     intros d ts r I. apply in_map_iff in I. destruct I as [[k r'] [E I]]. cbn in E. subst r'.
-    unfold C17.Model.write in I. apply filter_In in I. destruct I as [_ L]. apply listed_spec in L. exact L.
+    unfold C17.Model.write in I. apply filter_In in I. destruct I as [I L]. cbn [fst] in L. apply key_listed_spec in L.
+    fold (puts ts d) in I. apply in_puts_fwd in I. destruct I as [[t [It [_ E]]]|[Nk _]]; [exists t; auto|contradiction].
   Qed.
 
   Lemma in_somes : forall A (l : list (option A)) x, In x (somes l) <-> In (Some x) l.
@@ -266,8 +288,9 @@ Section CacheProofs.
   Proof.
     intros d ts m I. apply in_load in I. destruct I as [k [r [m0 [I [S E]]]]].
     destruct (removed_gone_thm d ts r) as [t [It Et]]; [apply in_map_iff; exists (k, r); auto|].
-    exists t. split; [exact It|]. rewrite Et. subst m. rewrite <- (setstate_ident _ _ S).
-    destruct (repair_table_thm m0) as [_ [_ [Id _]]]. cbn. exact (eq_sym Id).
+    exists t. split; [exact It|]. subst m r.
+    destruct (repair_table_thm m0) as [_ [_ [Id _]]]. transitivity (ident_of (repair m0)); [|reflexivity].
+    rewrite Id, (setstate_ident _ _ S). reflexivity.
   Qed.
 
   Lemma no_in_progress_thm : forall d m, In m (load d) ->
@@ -277,25 +300,12 @@ Section CacheProofs.
     split; [apply repair_not_in_progress|]. split; [|reflexivity]. exact (proj1 (proj2 (repair_table_thm m0))).
   Qed.
 
-  (* ---------- F21: the key is not injective on identities ---------- *)
+  (* the pair of (fixed) finding F21 *)
   Definition f21_a : mt := mkMt [97%N; 98%N] [99%N] Download QUEUED None false None None None None 0%N 0%N 0%N None None false true.
   Definition f21_b : mt := mkMt [97%N] [98%N; 99%N] Download QUEUED None false None None None None 0%N 0%N 0%N None None false true.
 
-  Lemma roundtrip_refuted_thm : exists ts, NoDup (map ident_of ts) /\
-    (forall t, In t ts -> has_class (m_state t) = true) /\
-    length (write [] ts) < length ts /\ ~ key_injective_on K H ts.
-  Proof.
-    exists [f21_a; f21_b]. split; [|split; [|split]].
-    - constructor; [intros [E|[]]; discriminate|constructor; [intros []|constructor]].
-    - intros t [<-|[<-|[]]]; reflexivity.
-    - assert (Ek : key f21_a = key f21_b) by reflexivity.
-      unfold C17.Model.write. cbn [fold_left]. rewrite Ek. unfold C17.Model.put at 1. cbn [remove_key].
-      unfold C17.Model.put at 1. cbn [remove_key]. assert (R : K_eqb (key f21_b) (key f21_b) = true) by (apply K_eqb_spec; reflexivity).
-      rewrite R. cbn [filter snd]. destruct (listed [f21_a; f21_b] (getstate f21_b)); cbn; lia.
-    - intros KI. assert (E : ident_of f21_a = ident_of f21_b).
-      { apply KI; [left; reflexivity|right; left; reflexivity|reflexivity]. }
-      discriminate E.
-  Qed.
+  Lemma f21_pair_separated : keystr (ident_of f21_a) = keystr (ident_of f21_b) /\ enc (ident_of f21_a) <> enc (ident_of f21_b).
+  Proof. split; [reflexivity|]. intros E. apply enc_inj in E. discriminate E. Qed.
 End CacheProofs.
 
 (* loaded transfers, seen as C03 transfers: no tasks, lock free; every C03 theorem applies to them *)
